@@ -9,12 +9,19 @@ Line-protocol driver for C05 (op grammar: harness/hx-c05/src/bin/c05.rs).
   frag <tag> <pre> <itemsA> <itemsB> <post>   `<tag>` with children `pre…, Fragment(itemsA), post…` (each `-` or views),
                               hydrated, the fragment rebuilt with itemsB; CSR twin
 
+  shyd <mode> <done0> <steps> <A> <B>     views with `Suspend`s: the server form <mode> (io | ooo | res | sync) of A under the
+                              completion schedule (<done0> before rendering, one entry of <steps> per poll, the rest, polls to the
+                              end), run by `Hydrate.stream` (C07's `Model/Stream` machine + `applyScripts`); then as `hyd` with
+                              `clientOf A` / `clientOf B`
+  sfrag <mode> <done0> <steps> <tag> <pre> <itemsA> <itemsB> <post>   `frag` with items that may suspend
+
 `<views>` is one word, view+ with
   view := 'T' hex ';' | 'U' | 'E' tag ';' attr* '>' view* '<' | 'P' view* ')' | 'N' | 'S' view
         | 'L' view | 'R' view | 'V' view* ']'
         | 'I' view (InertElement) | 'K' key* ']' | 'k' key* ']' (keyed lists) | 'Z' view | 'z' (Result)
         | '#' digits ';' (u32) | 'a' hex ';' (Arc<str>) | 'c' hex ';' (Cow<str>) | '3' i view (EitherOf3)
         | 'Y' view* ')' ([AnyView; N]) | 'W' view (OwnedView) | 'F' view (closure)
+        | 'X' fid ';' view (Suspend on future fid) | 'Q' (fid '.' key ';')* ']' (keyed, items `<b>{Suspend(key)}</b>`)
 These share `to_html` / `hydrate` / `rebuild` with modelled constructors and are decoded as such:
 `InertElement(html of v)` = the static element `v` (its children are not walked by the real code, which
 no observable shows), `keyed` = `Vec` of the item views (same marker; rebuild = the keyed diff, whose
@@ -114,6 +121,20 @@ partial def parseKeys (cs : List Char) (acc : List String) : Option (List String
     let (k, r) ← hexField cs
     parseKeys r (k :: acc)
 
+/-- `<fid> '.' <hex> ';'` up to `]` -/
+partial def parseSuspKeys (cs : List Char) (acc : List (Nat × String)) : Option (List (Nat × String) × List Char) :=
+  match cs with
+  | ']' :: r => some (acc.reverse, r)
+  | _ => do
+    let (fld, r) ← untilSemi cs
+    let ds := fld.takeWhile (· != '.')
+    let hx := (fld.dropWhile (· != '.')).drop 1
+    if ds.isEmpty || !ds.all Char.isDigit || !fld.contains '.' then none
+    let f : Nat := ds.foldl (fun n c => n * 10 + (c.toNat - 48)) 0
+    if f > 15 then none
+    let k ← stringOfHexChars hx
+    parseSuspKeys r ((f, k) :: acc)
+
 mutual
 partial def parseView (sd : Nat) (cs : List Char) : Option (View × List Char) :=
   match cs with
@@ -187,6 +208,16 @@ partial def parseView (sd : Nat) (cs : List Char) : Option (View × List Char) :
     let (v, r) ← parseView sd r
     -- `rebuild` of a closure always builds the new effect and replaces the old one: two different tags
     pure (.any (.either (if sd = 0 then [] else [.unit])) (wrap v), r)
+  | 'X' :: r => do
+    let (f, r) ← natField r
+    let (v, r) ← parseView sd r
+    if f > 15 || !(fidsOf v).isEmpty then none
+    -- `Suspend<AnyView>`: see Model/Hydrate, section "Suspend and the streamed forms"
+    pure (.any (suspTy f) (.osome (wrap v)), r)
+  | 'Q' :: r => do
+    let (items, r) ← parseSuspKeys r []
+    pure (.any (.vec (.elem "b" [] (.opt .text)))
+      (.vec (items.map fun (f, k) => View.elem "b" [] (.tuple [.any (suspTy f) (.osome (.text k))]))), r)
   | _ => none
 partial def parseSeq (sd : Nat) (close : Option Char) (cs : List Char) (acc : List View) : Option (List View × List Char) :=
   match cs with
@@ -237,9 +268,9 @@ def outcomeStr (d : Dom) : Except HydrationError Out → String
   | .error (.marker f) => s!"err:marker:{kindLetter d f}"
   | .error (.element _ f) => s!"err:element:{kindLetter d f}"
 
-def opHyd (a b : View) : String :=
-  let htmlS := toHtml a
-  let head := s!"html={orDash (hexOfString (String.ofList htmlS))} io=1 ooo=1"
+/-- the browser's reading of `htmlS`, hydration with `a`, rebuild with `b`, client-built twin; `cls` = the
+    known-finding class the input falls in, if any -/
+def hydTail (head : String) (htmlS : Hydrate.Str) (a b : View) (cls? : Option String) (twoPhase := false) : String :=
   match Html.parse htmlS with
   | none => s!"{head} tree=none ## fail parse-none"
   | some ts =>
@@ -247,32 +278,73 @@ def opHyd (a b : View) : String :=
     let r := hydrateFrom d root a
     match r with
     | .error _ =>
-      s!"{head} tree={orDash (encH ts)} hyd={outcomeStr d r} created=0 ## fail hydration-error"
+      s!"{head} tree={orDash (encH ts)} hyd={outcomeStr d r} created=0 ## fail {cls?.getD "hydration-error"}"
     | .ok o =>
       -- hydrated world: the writes of the walk (the empty string's `" "` becomes `""`), then the rebuild
       let dh := settle o.state d
-      let (d1, _) := rebuild false b o.state dh
+      -- a `Suspend` rebuilds in a task: first everything else (`syncPart`), then the values of the `Suspend`s
+      let (dp, st1) := if twoPhase then rebuild false (syncPart a b) o.state dh else (dh, o.state)
+      let (d1, _) := rebuild false b st1 dp
       -- the twin lives in the same arena, as in the harness
       let (d2, root2) := d1.createElement "div"
       let (d2, st2) := build a d2
       let d2 := mount st2 d2 root2 none
+      let (d2, st2) := if twoPhase then rebuild false (syncPart a b) st2 d2 else (d2, st2)
       let (d2, _) := rebuild false b st2 d2
       let after := (serializeKids d1 root).getD []
       let csr := (serializeKids d2 root2).getD []
       -- self-checks of the model's own theorems on this input: the loaded DOM holds the parsed forest
       -- (`C05_load_realises_stmt`), the parser read `domOf a` (`C05_parse_print`), the walk returned
-      -- the specified state, bound (`C05_hydrate_succeeds`)
-      let specOK := stateBeq o.state (adopt a .firstChild f).1 && bound d o.state &&
-        realisesB d root f ts && (hasRawKids a || decide (ts = domOf a)) &&
+      -- the specified state, bound (`C05_hydrate_succeeds`); they speak about the HTML of `a` itself
+      let own := decide (htmlS = toHtml a)
+      let specOK := realisesB d root f ts &&
         treesBeq ((serializeKids d root).getD []) (toDomTrees ts) &&
-        (hasRawKids a || treesBeq ((serializeKids dh root).getD []) (domA a .firstChild))
+        (!own || (stateBeq o.state (adopt a .firstChild f).1 && bound d o.state &&
+          (hasRawKids a || decide (ts = domOf a)) &&
+          (hasRawKids a || treesBeq ((serializeKids dh root).getD []) (domA a .firstChild))))
       let good := o.created == 0 && d2.errs.isEmpty && treesBeq (stripL after) (stripL csr) && specOK
       let cls :=
         if good then "ok"
         else if !specOK then "fail model-self-check"
         else if hasRawKids a then "fail raw-text-child"
-        else "fail unexplained"
+        else match cls? with
+          | some c => s!"fail {c}"
+          | none => "fail unexplained"
       s!"{head} tree={orDash (encH ts)} hyd=ok created={o.created} after={orDash (encD after)} csr={orDash (encD csr)} ## {cls}"
+
+def opHyd (a b : View) : String :=
+  let htmlS := toHtml a
+  hydTail s!"html={orDash (hexOfString (String.ofList htmlS))} io=1 ooo=1" htmlS a b none
+
+def fidsField (w : String) : Option (List Nat) :=
+  if w == "-" then some [] else
+  (w.splitOn ",").mapM fun x =>
+    if x.isEmpty || !x.toList.all Char.isDigit then none
+    else
+      let n := x.toList.foldl (fun n c => n * 10 + (c.toNat - 48)) 0
+      if n > 15 then none else some n
+
+/-- `shyd <mode> <done0> <steps> <A> <B>` -/
+def opShyd (mode : String) (d0 : List Nat) (steps : List (List Nat)) (a b : View) : String :=
+  let ac := clientOf a
+  let bc := clientOf b
+  let fin (raw htmlS : Hydrate.Str) : String :=
+    -- the server guessed a position the resolved view does not leave: F-C05-6
+    let cls? := if htmlS = toHtml ac then none else some "suspend-position"
+    hydTail s!"raw={orDash (hexOfString (String.ofList raw))} html={orDash (hexOfString (String.ofList htmlS))}" htmlS ac bc cls? true
+  if mode == "sync" || mode == "res" then
+    if mode == "sync" && !(fidsOf a).all d0.contains then "bad-op"
+    else fin (toHtml ac) (toHtml ac)
+  else
+    let s := stream (mode == "ooo") d0 steps a
+    match s.last with
+    | some .done =>
+      -- `C05_stream_html` re-evaluated on this input: every guess right ⇒ the stream is the client's HTML
+      if Agree (mode == "ooo") d0 true a .firstChild && s.html != toHtml ac then
+        s!"raw={orDash (hexOfString (String.ofList s.raw))} ## fail model-self-check"
+      else fin s.raw s.html
+    | some .panic => "ssr-panic ## fail ssr-panic"
+    | _ => "ssr-stuck ## fail ssr-stuck"
 
 def opMis (a c : View) : String :=
   match Html.parse (toHtml c) with
@@ -295,11 +367,17 @@ def outcomeU (d : Dom) : Except HydrationError Unit → String
   | .error (.marker f) => s!"err:marker:{kindLetter d f}"
   | .error (.element _ f) => s!"err:element:{kindLetter d f}"
 
-/-- `frag <tag> <pre> <itemsA> <itemsB> <post>`: `<tag>` with children `pre…, Fragment(items), post…` -/
-def opFrag (tag : String) (pre itemsA itemsB post preB postB : List View) : String :=
+/-- `frag <tag> <pre> <itemsA> <itemsB> <post>`: `<tag>` with children `pre…, Fragment(items), post…`;
+    `src` = what the server sent when it is not the synchronous string (`sfrag`): raw chunks and final HTML -/
+def opFrag (tag : String) (pre itemsA itemsB post preB postB : List View) (src : Option (Hydrate.Str × Hydrate.Str) := none) : String :=
   let kids := pre ++ itemsA ++ post
-  let htmlS := toHtml (.elem tag [] (.tuple kids))
-  let head := s!"html={orDash (hexOfString (String.ofList htmlS))}"
+  let own := toHtml (.elem tag [] (.tuple kids))
+  let htmlS := match src with | some (_, h) => h | none => own
+  let hx (x : Hydrate.Str) := orDash (hexOfString (String.ofList x))
+  let head := match src with
+    | some (raw, h) => s!"raw={hx raw} html={hx h}"
+    | none => s!"html={hx htmlS}"
+  let cls := if htmlS = own then "unexplained" else "suspend-position"
   match Html.parse htmlS with
   | none => s!"{head} tree=none ## fail parse-none"
   | some ts =>
@@ -307,11 +385,32 @@ def opFrag (tag : String) (pre itemsA itemsB post preB postB : List View) : Stri
     let c := runFragCsr tag pre itemsA itemsB post preB postB
     let d0 := (loadRoot ts).1
     match h.outcome with
-    | .error _ => s!"{head} tree={orDash (encH ts)} hyd={outcomeU d0 h.outcome} created=0 ## fail hydration-error"
+    | .error _ =>
+      s!"{head} tree={orDash (encH ts)} hyd={outcomeU d0 h.outcome} created=0 ## fail {if cls == "unexplained" then "hydration-error" else cls}"
     | .ok _ =>
       let good := fragLikeCsr false ts tag pre itemsA itemsB post preB postB
       let panicked := !h.errs.isEmpty
-      s!"{head} tree={orDash (encH ts)} hyd=ok created={h.created} panic={if panicked then 1 else 0} after={orDash (encD h.kids)} csr={orDash (encD c.1)} ## {if good then "ok" else "fail unexplained"}"
+      s!"{head} tree={orDash (encH ts)} hyd=ok created={h.created} panic={if panicked then 1 else 0} after={orDash (encD h.kids)} csr={orDash (encD c.1)} ## {if good then "ok" else s!"fail {cls}"}"
+
+/-- `sfrag <mode> <done0> <steps> <tag> <pre> <itemsA> <itemsB> <post>` -/
+def opSfrag (mode : String) (d0 : List Nat) (steps : List (List Nat)) (tag : String)
+    (pre itemsA itemsB post preB postB : List View) : String :=
+  let server : View := .elem tag [] (.tuple (pre ++ itemsA ++ post))
+  let cA := clientOfL itemsA
+  let cB := clientOfL itemsB
+  let own := toHtml (clientOf server)
+  if mode == "sync" || mode == "res" then
+    if mode == "sync" && !(fidsOfL itemsA).all d0.contains then "bad-op"
+    else opFrag tag pre cA cB post preB postB (some (own, own))
+  else
+    let s := stream (mode == "ooo") d0 steps server
+    match s.last with
+    | some .done =>
+      if Agree (mode == "ooo") d0 true server .firstChild && s.html != own then
+        s!"raw={orDash (hexOfString (String.ofList s.raw))} ## fail model-self-check"
+      else opFrag tag pre cA cB post preB postB (some (s.raw, s.html))
+    | some .panic => "ssr-panic ## fail ssr-panic"
+    | _ => "ssr-stuck ## fail ssr-stuck"
 
 def step (_ : Unit) (line : String) : Unit × String :=
   let out :=
@@ -319,17 +418,32 @@ def step (_ : Unit) (line : String) : Unit × String :=
     | ["case", n] => s!"case {n}"
     | ["hyd", a, b] =>
       match decodeTop 0 a, decodeTop 1 b with
-      | some a, some b => opHyd a b
+      | some a, some b => if (fidsOf a ++ fidsOf b).isEmpty then opHyd a b else "bad-op"
       | _, _ => "bad-op"
+    | ["shyd", mode, d0, steps, a, b] =>
+      let stepsL : Option (List (List Nat)) := if steps == "-" then some [] else (steps.splitOn "/").mapM fidsField
+      match fidsField d0, stepsL, decodeTop 0 a, decodeTop 1 b with
+      | some d0, some st, some a, some b =>
+        if st.length > 8 || !["io", "ooo", "res", "sync"].contains mode then "bad-op" else opShyd mode d0 st a b
+      | _, _, _, _ => "bad-op"
     | ["frag", tag, p, ia, ib, q] =>
       match decodeSeq 0 p, decodeSeq 0 ia, decodeSeq 1 ib, decodeSeq 0 q, decodeSeq 1 p, decodeSeq 1 q with
       | some p, some ia, some ib, some q, some pB, some qB =>
-        if (p ++ ia ++ q).length > 5 || tag.isEmpty || !tag.toList.all tagCharOK then "bad-op"
+        if (p ++ ia ++ q).length > 5 || tag.isEmpty || !tag.toList.all tagCharOK
+            || !(fidsOfL (p ++ ia ++ ib ++ q)).isEmpty then "bad-op"
         else opFrag tag p ia ib q pB qB
       | _, _, _, _, _, _ => "bad-op"
+    | ["sfrag", mode, d0, steps, tag, p, ia, ib, q] =>
+      let stepsL : Option (List (List Nat)) := if steps == "-" then some [] else (steps.splitOn "/").mapM fidsField
+      match fidsField d0, stepsL, decodeSeq 0 p, decodeSeq 0 ia, decodeSeq 1 ib, decodeSeq 0 q, decodeSeq 1 p, decodeSeq 1 q with
+      | some d0, some st, some p, some ia, some ib, some q, some pB, some qB =>
+        if st.length > 8 || !["io", "ooo", "res", "sync"].contains mode || (p ++ ia ++ q).length > 5 || tag.isEmpty
+            || !tag.toList.all tagCharOK || !(fidsOfL (p ++ q)).isEmpty then "bad-op"
+        else opSfrag mode d0 st tag p ia ib q pB qB
+      | _, _, _, _, _, _, _, _ => "bad-op"
     | ["mis", a, c] =>
       match decodeTop 0 a, decodeTop 0 c with
-      | some a, some c => opMis a c
+      | some a, some c => if (fidsOf a ++ fidsOf c).isEmpty then opMis a c else "bad-op"
       | _, _ => "bad-op"
     | _ => "bad-op"
   ((), out)
